@@ -65,11 +65,13 @@ class ProgramRunner:
         clock = itertools.count()
         hist = []
         objs = self.objs
+        opstart = self.opstart = {}
 
         def body(ti, steps):
             def run():
                 for si, st in enumerate(steps):
                     hist.append(("call", next(clock), ti, si))
+                    opstart[(ti, si)] = sched.SCHED.nsteps[ti] if ti < len(sched.SCHED.nsteps) else 0
                     try:
                         node = objs[st["h"]]
                         for k in st.get("path", []):
@@ -318,6 +320,36 @@ def explore(prog, runner, rng, tier, sig_base, check_extra=None, budget_runs=Non
                         break
                     if budget_runs and out["runs"] > budget_runs:
                         break
+    if "boundary" in policies:
+        # A second family of schedules: thread A runs up to the start of its i-th operation (i >= 1), thread B
+        # then runs until its k-th point (k swept over B's path in that context), A completes, B completes:
+        #     A: op0 | B: partial | A: op_i ... | B: rest
+        # This reaches interleavings that need two preemptions, the first one at an operation boundary.
+        for a in range(nthreads):
+            nops = len(prog["threads"][a])
+            for i in range(1, nops):
+                for b in range(nthreads):
+                    if b == a:
+                        continue
+                    order = [a, b] + [t for t in range(nthreads) if t not in (a, b)]
+                    # recording run: learn A's point count at the start of op i and B's path afterwards
+                    res = one(sched.PriorityPolicy(order, [(a, 10**9)]), record_sites=True)
+                    if res["status"] != "ok":
+                        continue
+                    bnd = runner.opstart.get((a, i))
+                    if bnd is None:
+                        continue
+                    res = one(sched.PriorityPolicy(order, [(a, bnd + 1), (b, 10**9)]), record_sites=True)
+                    if res["status"] != "ok":
+                        continue
+                    ks = select_ks(res["site_seq"][b])
+                    if tier == "quick":
+                        ks = ks[:: 2]
+                    out["boundary_points"] = out.get("boundary_points", 0) + len(ks)
+                    for k in ks:
+                        res = one(sched.PriorityPolicy(order, [(a, bnd + 1), (b, k)]))
+                        if res["status"] in ("watchdog", "overrun"):
+                            break
     if "two_delay" in policies:
         lens = [max(2, n) for n in (runner_last_nsteps(runner) or [200] * nthreads)]
         for _ in range(40 if tier == "quick" else 200):
